@@ -15,16 +15,16 @@ def step (line : String) : String :=
     match parseRat? x, p.toNat? with
     | some x, some p => String.ofList (decText (roundNum x p) p)
     | _, _ => "bad-op"
-  | ["condense_mass", a, plus, p, res, mu, adj, aac, mr, ion, chg, em, flg] =>
-    match parseEnv? res mu adj aac mr ion chg em flg, parseBool? plus, p.toNat? with
+  | ["condense_mass", a, plus, p, res, mu, adj, aac, mr, ion, chg, em, flg, ntc, ctc] =>
+    match parseEnv? res mu adj aac mr ion chg em flg ntc ctc, parseBool? plus, p.toNat? with
     | some E, some plus, some p => withAnn a fun a => showExcept Wire.esc (condenseToMass E a plus p)
     | _, _, _ => "bad-op"
-  | ["condense_ann", a, p, res, mu, adj, aac, mr, ion, chg, em, flg] =>
-    match parseEnv? res mu adj aac mr ion chg em flg, p.toNat? with
+  | ["condense_ann", a, p, res, mu, adj, aac, mr, ion, chg, em, flg, ntc, ctc] =>
+    match parseEnv? res mu adj aac mr ion chg em flg ntc ctc, p.toNat? with
     | some E, some p => withAnn a fun a => showExcept Wire.showAnnotation (condenseToMassAnn E a p)
     | _, _ => "bad-op"
-  | ["mass", a, res, mu, adj, aac, mr, ion, chg, em, flg] =>
-    match parseEnv? res mu adj aac mr ion chg em flg with
+  | ["mass", a, res, mu, adj, aac, mr, ion, chg, em, flg, ntc, ctc] =>
+    match parseEnv? res mu adj aac mr ion chg em flg ntc ctc with
     | some E => withAnn a fun a => showExcept showRat (massOf E a)
     | none => "bad-op"
   | _ => "bad-op"
